@@ -419,6 +419,7 @@ func sortDescr(fset *token.FileSet, st ast.Stmt, slice string) string {
 func (ri *repoImporter) semanticFacts(repo string) map[string]any {
 	funcs := ri.collectFuncs(repo)
 	reach := ri.reachableFuncs(funcs)
+	callers := ri.callerIndex(funcs)
 	var sites []map[string]any
 	var importsSiteFunc *types.Func
 	for o, fi := range funcs {
@@ -465,7 +466,7 @@ func (ri *repoImporter) semanticFacts(repo string) map[string]any {
 			}
 			sites = append(sites, map[string]any{"pkg": fi.rel, "what": what, "type": typeShape(tv.Type), "kind": kind,
 				"detail": detail, "reachable": reach[o] && !dead, "func": displayName(o), "file": fi.file,
-				"line": ri.fset.Position(rs.Pos()).Line})
+				"line": ri.fset.Position(rs.Pos()).Line, "func_name": qualName(o), "reached_from": reachedFrom(callers, o)})
 			if what == ".Imports" && kind == "collect-then-sort" {
 				importsSiteFunc = o
 			}
@@ -563,6 +564,8 @@ func (ri *repoImporter) semanticFacts(repo string) map[string]any {
 	return map[string]any{
 		"sites": sites, "sorted_import_users": users, "pkg_var_shapes": varShapes, "struct_shapes": structShapes,
 		"codegen_entries_sem": ri.codegenEntries(funcs),
+		// steering facts of the width sweep (tablefacts.go; not compared with an expectation)
+		"int_tables": ri.intTables(),
 	}
 }
 
